@@ -250,28 +250,7 @@ func propC20(c *Ctx, r *Report) {
 		})
 		r.check(len(bad) == 0 && n > 0, "C20/validate-table", "PTicker.UnmarshalJSON yields only table values or Invalid", c.pos(um.Pos()), "", strings.Join(bad, "; "))
 	}
-	// input amount bound
-	tbv := c.fn("fat2.TransactionBatch.Validate")
-	for _, cs := range []struct {
-		amt  string
-		ok   bool
-		name string
-	}{{"9223372036854775807", true, "MaxInt64"}, {"9223372036854775808", false, "MaxInt64+1"}} {
-		v := constant.MakeFromLiteral(cs.amt, token.INT, 0)
-		sc := &Scenario{Paths: map[string]AVal{"fat2.TypedAddressAmountTuple.Amount": {K: AConst, C: v}}, Calls: map[string]AVal{"ValidData": nilVal, "ValidExtIDs": nilVal}, MaxDepth: 0}
-		st := newSCCP(c, sc).run(tbv, nil, 0)
-		r.Scen++
-		le := loopOver(st, "t.Transactions", 1)
-		if !le.Found {
-			le = loopOver(st, "fat2.TransactionBatch.Transactions", 1)
-		}
-		got := le.String()
-		want := "next"
-		if !cs.ok {
-			want = "err:fresh"
-		}
-		r.check(le.Found && got == want, "C20/validate-table", "input amount "+cs.name, c.pos(tbv.Pos()), want, "loop exits {"+got+"}, expected {"+want+"}")
-	}
+	ruleInputAmountBound(c, r, "C20/validate-table")
 	ruleValidateBounds(c, r, "C20/transfer-sum-exact")
 
 	// the string converted is the string the user typed
@@ -446,4 +425,31 @@ func exclusiveKeys(c *Ctx, r *Report, rule string) {
 		}
 	}
 	r.check(len(bad) == 0 && n >= 2, rule, "Transaction.UnmarshalJSON expected length alternatives", c.pos(um.Pos()), fmt.Sprintf("%d alternatives, none with both keys", n), strings.Join(uniq(bad), "; "))
+}
+
+// ruleInputAmountBound: TransactionBatch.Validate rejects any input amount above MaxInt64 (whatever the kind of
+// transaction): larger values cannot be bound as SQL parameters and cannot be converted.
+func ruleInputAmountBound(c *Ctx, r *Report, rule string) {
+	// input amount bound
+	tbv := c.fn("fat2.TransactionBatch.Validate")
+	for _, cs := range []struct {
+		amt  string
+		ok   bool
+		name string
+	}{{"9223372036854775807", true, "MaxInt64"}, {"9223372036854775808", false, "MaxInt64+1"}} {
+		v := constant.MakeFromLiteral(cs.amt, token.INT, 0)
+		sc := &Scenario{Paths: map[string]AVal{"fat2.TypedAddressAmountTuple.Amount": {K: AConst, C: v}}, Calls: map[string]AVal{"ValidData": nilVal, "ValidExtIDs": nilVal}, MaxDepth: 0}
+		st := newSCCP(c, sc).run(tbv, nil, 0)
+		r.Scen++
+		le := loopOver(st, "fat2.TransactionBatch.Transactions", 1)
+		if !le.Found {
+			le = loopOver(st, "fat2.TransactionBatch.Transactions", 1)
+		}
+		got := le.String()
+		want := "next"
+		if !cs.ok {
+			want = "err:fresh"
+		}
+		r.check(le.Found && got == want, rule, "input amount "+cs.name, c.pos(tbv.Pos()), want, "loop exits {"+got+"}, expected {"+want+"}")
+	}
 }
